@@ -71,6 +71,10 @@ PROPS = {
              {"checks": 3000, "timeout": 300},
              {"checks": 12000, "shards": 16, "timeout": 1800},
              assumptions=COMMON_ASSUME),
+    "C15": P("TestC15", "exploration",
+             {"checks": 1500, "timeout": 400, "gomaxprocs": 1},
+             {"checks": 5000, "shards": 16, "timeout": 1800, "gomaxprocs": 1},
+             assumptions=COMMON_ASSUME),
 }
 
 TRUST = "Trusted base: Go runtime, net/http, compress/*, google.golang.org/protobuf, rapid, and the harness's own reference wire layer as the reading of the protocol specs. Generated search: absence of violations is evidence over the explored cases only."
@@ -149,6 +153,11 @@ META = {
     "C17": {
         "technique": 'property-based testing (rapid): generated configurations from valid building blocks with at most one injected defect of a listed category; three-valued servable() expectation (defect => reject with nil transcoder, valid blocks => accept) and, for accepted configurations, probes through the real ServeHTTP for reachability of every binding, exact selector binding and option override',
         "level_text": 'Generated exploration of NewTranscoder inputs (service pools, protocol/codec/compression sets, defaults vs overrides, rule sets with 24 defect categories) with the accept/reject expectation known by construction, plus behavioural probes of every accepted configuration.',
+        "level_note": TRUST,
+    },
+    "C15": {
+        "technique": 'model-based / stateful property-based testing (rapid): generated histories of earlier RPCs on one long-lived Transcoder, probe compared with a fresh Transcoder after every step (differential), with an instrumented deterministic poisoning buffer pool (tag verif) and with the regular sync.Pool',
+        "level_text": 'Generated exploration of operation sequences (valid, rejected, cut, oversized, corrupt-compressed requests; panicking and protocol-violating backends) against one Transcoder; outcome equality with a fresh Transcoder and pool bookkeeping (double release, live reuse, write after release) are the invariants checked after every step.',
         "level_note": TRUST,
     },
 }
